@@ -156,3 +156,38 @@ Section Sem.
     let live := filter (fun n => negb (existsb (String.eqb (d_name n)) (map fst data))) S in
     first_failure (subgraph live targets) data.
 End Sem.
+
+(* ---------------------------------------------------------------- *)
+(* the abstract engine theorems, instantiated for the concrete engine *)
+
+Section Concrete.
+  Variable ft : ftable.
+  Variable P : params.
+  Variable rounding : bool.
+  Variable nrows : nat.
+
+  Definition sys (Pm : params) (S : list dnode) : list (node column) := to_sys column (sem ft Pm rounding nrows) S.
+
+  (* C04: a target common to two argument-closed target sets has the same column under both *)
+  Theorem table_target_independent (S : list dnode) K1 K2 data t1 t2 t x :
+    closed_chk K1 S = true -> closed_chk K2 S = true -> smem x K1 = true -> smem x K2 = true ->
+    run column (prune column (fun y => smem y K1) (sys P S)) data = Ok t1 ->
+    run column (prune column (fun y => smem y K2) (sys P S)) data = Ok t2 ->
+    run column (sys P S) data = Ok t -> tget column x t1 = tget column x t2.
+  Proof.
+    intros C1 C2 X1 X2 R1 R2 Rt.
+    apply (target_independent column (fun y => smem y K1) (fun y => smem y K2) (sys P S) data t1 t2 x
+             (closed_chk_sound column _ K1 S C1) (closed_chk_sound column _ K2 S C2) X1 X2 R1 R2 t Rt).
+  Qed.
+
+  (* C05: supplying the computed column of node x as data changes no column *)
+  Theorem table_override (S : list dnode) datacols x c data data' t :
+    topo_ok datacols [] S = true -> plus column x c data data' -> tget column x data = None ->
+    run column (sys P S) data = Ok t -> tget column x t = Some c ->
+    exists t', run column (without column x (sys P S)) data' = Ok t' /\ forall y, tget column y t' = tget column y t.
+  Proof.
+    intros Ht Hp Hn Hr Hx. apply (run_override column x c (sys P S) data data' t); try assumption.
+    unfold sys. rewrite names_to_sys. exact (proj1 (topo_ok_nodup datacols S [] Ht)).
+  Qed.
+
+End Concrete.
